@@ -79,12 +79,16 @@ CHECKS = {
              "circuit, every number/order of set_output steps - also interleaved with evaluations "
              "(CBlock->SBlock event feedback) - and every choice of the next block, at every idle point "
              "every combinational block is consistent with its function of the current outputs; "
-             "specifications of Not/And/Or/Xor/Override/Compare (hysteresis fixpoint). Tie: the real "
+             "specifications of Not/And/Or/Xor/Override/Compare (hysteresis fixpoint). Tie (both kinds): (1) "
+             "tools/gen_cblocks.py regenerates the output functions of Not/And/Or/Xor/Compare/Override from "
+             "edzed/blocklib/cblocks.py on every run and Gen/GenCBlocksProofs.v re-proves that they are the "
+             "model's apply_fun; (2) the real "
              "simulator's schedule (wrappers around set_output/calc_output/eval_block of the instances) "
              "and output snapshots after wait_init() and after every burst must be accepted by the "
              "executable acceptor, and the consistency monitor is evaluated on the observed snapshots.",
-        technique="Coq proof (simulation invariant, induction over schedules) + trace acceptance and "
-                  "monitor evaluated by vm_compute",
+        technique="Coq proof (simulation invariant, induction over schedules) + block functions regenerated "
+                  "from the source by a fail-closed translator + trace acceptance and monitor evaluated by "
+                  "vm_compute",
         design_ref="DESIGN.md section 6/C01"),
     'C10': dict(
         text="Theorems (Props/C10.v): no accepted schedule contains more than 3*|blocks| evaluations "
